@@ -1,7 +1,7 @@
 #!/usr/bin/env python3
 """Verdict bookkeeping shared by all property checks: obligations, violations,
 known findings, evidence files, exit codes."""
-import json, os, sys, time, hashlib
+import re, json, os, sys, time, hashlib
 
 from . import extract as ex
 from .core import Facts
@@ -67,6 +67,9 @@ class Ctx:
 
     def fail(self, clause, key, detail, where="", path=None, fn=None):
         self.obls.append((clause, key, False, detail))
+        # violation keys identify the construct, not its position: line numbers and block numbers are dropped
+        # (the position is reported in `where`), so a known finding survives unrelated edits above it
+        key = re.sub(r"\bbb\d+\b", "bb", re.sub(r"(\b[\w/.-]+\.(?:rs|py|toml)):\d+(?::\d+)?", r"\1", str(key)))
         self.viol.append({"clause": clause, "key": "%s|%s" % (clause, key), "detail": detail, "where": where, "function": fn, "path": path})
 
     def check(self, cond, clause, key, detail="", where="", nontrivial=False, sample=None, fn=None):
